@@ -517,7 +517,7 @@ def core_universe(P: str = "U", variant: int = 0, postponed: bool | None = None)
     return _CORE_CACHE[key]
 
 
-def warm_up(U: Universe, rng) -> list[str]:
+def warm_up(U: Universe, rng, ctx=None) -> list[str]:
     """Instantiate every concrete class once, in a random order: the order of first use among the classes
     of a hierarchy is a configuration (accessors are generated per class on first use), so it must vary
     between shards instead of being fixed by the first generated tree."""
@@ -533,7 +533,15 @@ def warm_up(U: Universe, rng) -> list[str]:
                 kw[f.name] = U.cls[f"{P}Leaf"]() if leaf_ok else U.cls[f.types[0]]()
             elif f.shape.startswith("fixed"):
                 kw[f.name] = tuple(U.cls[f"{P}Leaf"](v=i) for i in range(int(f.shape[5:])))
-        n = U.cls[cn](**kw)
+        try:
+            n = U.cls[cn](**kw)
+        except Exception as e:  # noqa: BLE001
+            if ctx is None:
+                raise
+            # a well-typed default instance of a class of the node model cannot even be built: whatever the property under
+            # check says about "any node model" does not hold for this one
+            ctx.violation("valid-construction-raises", f"constructing a default instance of {cn} raised {type(e).__name__}: {e}"[:300], {"class": cn, "where": "first use of every class in a random order"})
+            continue
         made.append(n)
     for n in made:
         n.detach()
